@@ -462,10 +462,22 @@ func replayObject(c *rp.Ctx, kr *keyring, cs *joseCase, salt int, rng *rand.Rand
 	var fails []string
 	// a named deviation is claimed only if EVERY failure of the case is that deviation
 	dev, nfail := "", 0
+	headline := ""
 	fail := func(r runSpec, accepted bool, format string, a ...interface{}) {
 		d := deviationOf(cs, r, accepted)
 		if nfail == 0 {
 			dev = d
+			// the first 60 characters of What are vcheck's failure class (one isolated re-run per class, not per case)
+			switch {
+			case r.Tamper != "none" && accepted:
+				headline = "tampered " + r.Tamper + " accepted"
+			case r.Tamper != "none":
+				headline = "failure on tampered " + r.Tamper
+			case accepted:
+				headline = "opens with another key"
+			default:
+				headline = "untampered object with the right key does not round-trip"
+			}
 		} else if d != dev {
 			dev = ""
 		}
@@ -478,7 +490,7 @@ func replayObject(c *rp.Ctx, kr *keyring, cs *joseCase, salt int, rng *rand.Rand
 		if len(fails) == 0 {
 			return rp.Result{OK: true, Info: inf, Nontriv: true}
 		}
-		return rp.Result{OK: false, What: what + ": " + strings.Join(fails, "; "), Deviation: dev, Info: inf}
+		return rp.Result{OK: false, What: fmt.Sprintf("%-60s| %s: %s", headline, what, strings.Join(fails, "; ")), Deviation: dev, Info: inf}
 	}
 
 	none := runSpec{Tamper: "none", Key: "same", Expect: "ok"}
